@@ -46,6 +46,173 @@ fn network_circuit(l: usize, merger: bool) -> Result<(garble_lang::circuit::Circ
     })
 }
 
+/// the sorter over elements whose one-bit keys are not all distinct input wires: every assignment of a key
+/// source from {constant 0, constant 1, input 0, input 1} to the l elements (constant keys and keys that share
+/// a wire are what literal tables and widened keys produce); for every input the outputs must be a
+/// permutation, ascending by key
+pub fn check_sorter_key_sources(l: usize, cnt: &AtomicU64, coll: &Collector) {
+    let idx_bits = ceil_log2(l);
+    let site = format!("network/sorter-key-sources/L{l}");
+    let n_src = 4usize.pow(l as u32);
+    for code in 0..n_src {
+        let srcs: Vec<usize> = (0..l).map(|i| (code / 4usize.pow(i as u32)) % 4).collect();
+        let srcs2 = srcs.clone();
+        let built = catch(move || {
+            let mut b = Builder::new(vec![2], true);
+            let mut elems: Vec<Vec<usize>> = (0..l)
+                .map(|i| {
+                    let mut e = vec![srcs2[i]];
+                    for k in (0..idx_bits).rev() {
+                        e.push((i >> k) & 1);
+                    }
+                    e
+                })
+                .collect();
+            b.push_bitonic_sorter(1, &mut elems);
+            b.build(elems.concat())
+        });
+        let circuit = match built {
+            Ok(c) => c,
+            Err(p) => {
+                coll.push(Violation::new("C13", site.clone(), "network-build-rust-panic", format!("{srcs:?}"), json!({"kind":"network","L":l,"key_sources":format!("{srcs:?}")}), p));
+                continue;
+            }
+        };
+        for inp in 0..4u32 {
+            cnt.fetch_add(1, Ordering::Relaxed);
+            let bits = vec![inp & 1 == 1, inp & 2 == 2];
+            let key_of = |src: usize| match src {
+                0 => false,
+                1 => true,
+                2 => bits[0],
+                _ => bits[1],
+            };
+            let c = &circuit;
+            let i2 = vec![bits.clone()];
+            let Ok(out) = catch(move || c.eval(&i2)) else {
+                coll.push(Violation::new("C13", site.clone(), "network-eval-rust-panic", format!("{srcs:?}"), json!({"kind":"network","L":l}), "eval panicked"));
+                break;
+            };
+            let out = &out[161..];
+            let w = 1 + idx_bits;
+            let mut seen = vec![false; l];
+            let mut prev = false;
+            let mut why = String::new();
+            for j in 0..l {
+                let key = out[j * w];
+                let mut idx = 0usize;
+                for k in 0..idx_bits {
+                    idx = (idx << 1) | out[j * w + 1 + k] as usize;
+                }
+                if idx >= l || seen[idx] {
+                    why = format!("output {j} carries index {idx}: not a permutation");
+                    break;
+                }
+                seen[idx] = true;
+                if key != key_of(srcs[idx]) {
+                    why = format!("output {j} has key {key} but element {idx} has key {}", key_of(srcs[idx]));
+                    break;
+                }
+                if prev && !key {
+                    why = format!("keys not ascending at output {j}");
+                    break;
+                }
+                prev = key;
+            }
+            if !why.is_empty() {
+                coll.push(Violation::new("C13", site.clone(), "network-does-not-sort", format!("sources {srcs:?} (0/1 = constants, 2/3 = inputs), inputs {bits:?}"), json!({"kind":"network","L":l,"key_sources":format!("{srcs:?}")}), why.clone()));
+                coll.push(Violation::new("C04", site.clone(), "network-does-not-sort", format!("sources {srcs:?}, inputs {bits:?}"), json!({"kind":"network","L":l,"key_sources":format!("{srcs:?}")}), why));
+                return;
+            }
+        }
+    }
+}
+
+/// the same with TWO-bit keys whose high bit is the constant 0 or input 0 (shared leading key wires, as
+/// after widening casts) and whose low bit is any of the four sources
+/// (original comment:) the sorter over elements whose one-bit keys are not all distinct input wires: every assignment of a key
+/// source from {constant 0, constant 1, input 0, input 1} to the l elements (constant keys and keys that share
+/// a wire are what literal tables and widened keys produce); for every input the outputs must be a
+/// permutation, ascending by key
+pub fn check_sorter_two_bit_key_sources(l: usize, cnt: &AtomicU64, coll: &Collector) {
+    let idx_bits = ceil_log2(l);
+    let site = format!("network/sorter-two-bit-key-sources/L{l}");
+    let n_src = 8usize.pow(l as u32);
+    for code in 0..n_src {
+        let srcs: Vec<usize> = (0..l).map(|i| (code / 8usize.pow(i as u32)) % 8).collect();
+        let srcs2 = srcs.clone();
+        let built = catch(move || {
+            let mut b = Builder::new(vec![2], true);
+            let mut elems: Vec<Vec<usize>> = (0..l)
+                .map(|i| {
+                    let mut e = vec![[0usize, 2][srcs2[i] / 4], srcs2[i] % 4];
+                    for k in (0..idx_bits).rev() {
+                        e.push((i >> k) & 1);
+                    }
+                    e
+                })
+                .collect();
+            b.push_bitonic_sorter(2, &mut elems);
+            b.build(elems.concat())
+        });
+        let circuit = match built {
+            Ok(c) => c,
+            Err(p) => {
+                coll.push(Violation::new("C13", site.clone(), "network-build-rust-panic", format!("{srcs:?}"), json!({"kind":"network","L":l,"key_sources":format!("{srcs:?}")}), p));
+                continue;
+            }
+        };
+        for inp in 0..4u32 {
+            cnt.fetch_add(1, Ordering::Relaxed);
+            let bits = vec![inp & 1 == 1, inp & 2 == 2];
+            let bit_of = |src: usize| match src {
+                0 => false,
+                1 => true,
+                2 => bits[0],
+                _ => bits[1],
+            };
+            let key_of = |src: usize| 2 * (bit_of([0usize, 2][src / 4]) as u8) + bit_of(src % 4) as u8;
+            let c = &circuit;
+            let i2 = vec![bits.clone()];
+            let Ok(out) = catch(move || c.eval(&i2)) else {
+                coll.push(Violation::new("C13", site.clone(), "network-eval-rust-panic", format!("{srcs:?}"), json!({"kind":"network","L":l}), "eval panicked"));
+                break;
+            };
+            let out = &out[161..];
+            let w = 2 + idx_bits;
+            let mut seen = vec![false; l];
+            let mut prev = 0u8;
+            let mut why = String::new();
+            for j in 0..l {
+                let key = 2 * (out[j * w] as u8) + out[j * w + 1] as u8;
+                let mut idx = 0usize;
+                for k in 0..idx_bits {
+                    idx = (idx << 1) | out[j * w + 2 + k] as usize;
+                }
+                if idx >= l || seen[idx] {
+                    why = format!("output {j} carries index {idx}: not a permutation");
+                    break;
+                }
+                seen[idx] = true;
+                if key != key_of(srcs[idx]) {
+                    why = format!("output {j} has key {key} but element {idx} has key {}", key_of(srcs[idx]));
+                    break;
+                }
+                if prev > key {
+                    why = format!("keys not ascending at output {j}");
+                    break;
+                }
+                prev = key;
+            }
+            if !why.is_empty() {
+                coll.push(Violation::new("C13", site.clone(), "network-does-not-sort", format!("sources {srcs:?} (0/1 = constants, 2/3 = inputs), inputs {bits:?}"), json!({"kind":"network","L":l,"key_sources":format!("{srcs:?}")}), why.clone()));
+                coll.push(Violation::new("C04", site.clone(), "network-does-not-sort", format!("sources {srcs:?}, inputs {bits:?}"), json!({"kind":"network","L":l,"key_sources":format!("{srcs:?}")}), why));
+                return;
+            }
+        }
+    }
+}
+
 fn check_network(l: usize, merger: bool, chunk: usize, n_chunks: usize, cnt: &AtomicU64, coll: &Collector) {
     let site = format!("network/{}/L{}", if merger { "merger" } else { "sorter" }, l);
     let (circuit, idx_bits) = match network_circuit(l, merger) {
@@ -501,6 +668,10 @@ pub fn run(tier: Tier) -> i32 {
         net_jobs.push((l, true, 0, 1));
     }
     let done_a = par_range(net_jobs.len(), &budget, |i| check_network(net_jobs[i].0, net_jobs[i].1, net_jobs[i].2, net_jobs[i].3, &net_inputs, &coll));
+    let src_ls: Vec<usize> = (2..=tier.pick(6usize, 8usize)).collect();
+    par_range(src_ls.len(), &budget, |i| check_sorter_key_sources(src_ls[i], &net_inputs, &coll));
+    let src2_ls: Vec<usize> = (2..=tier.pick(4usize, 5usize)).collect();
+    par_range(src2_ls.len(), &budget, |i| check_sorter_two_bit_key_sources(src2_ls[i], &net_inputs, &coll));
     // B
     let max_nm = tier.pick(5usize, 7usize);
     let dom = tier.pick(6usize, 8usize);
